@@ -2222,9 +2222,10 @@ static void _ov_splice(float **pcm,float **lappcm,
 static int _ov_initset(OggVorbis_File *vf){
   while(1){
     if(vf->ready_state==INITSET)break;
-    /* suck in another packet */
+    /* suck in another packet; if we sit at the very end of a link,
+       the next link is what would be read next, so do span */
     {
-      int ret=_fetch_and_process_packet(vf,NULL,1,0);
+      int ret=_fetch_and_process_packet(vf,NULL,1,1);
       if(ret<0 && ret!=OV_HOLE)return(ret);
     }
   }
@@ -2240,9 +2241,10 @@ static int _ov_initprime(OggVorbis_File *vf){
     if(vf->ready_state==INITSET)
       if(vorbis_synthesis_pcmout(vd,NULL))break;
 
-    /* suck in another packet */
+    /* suck in another packet; a position at the very end of a link is
+       followed by the audio of the next link, so do span */
     {
-      int ret=_fetch_and_process_packet(vf,NULL,1,0);
+      int ret=_fetch_and_process_packet(vf,NULL,1,1);
       if(ret<0 && ret!=OV_HOLE)return(ret);
     }
   }
